@@ -140,6 +140,7 @@ func c20Run(c *fw.Ctx) {
 			labels := []string{a.Label, b.Label}
 			key := a.Label[:strings.IndexByte(a.Label, '|')] + "+" + b.Label[:strings.IndexByte(b.Label, '|')]
 			run(c20Case{Input: in, Labels: labels, Cut: -1}, key)
+			run(c20Case{Input: in, Labels: labels, Cut: -1, FailWrite: 1}, key+"|write-fails")
 			run(c20Case{Input: in, Labels: labels, Cut: -1, FailWrite: 2}, key+"|write-fails")
 			run(c20Case{Input: in, Labels: labels, Cut: -1, Password: "Secret1"}, key+"|unauthorised")
 			for cut := len(a.Bytes); cut < len(in); cut += 2 {
@@ -149,7 +150,14 @@ func c20Run(c *fw.Ctx) {
 				for _, d := range reps {
 					in3 := concat(in, d.Bytes)
 					run(c20Case{Input: in3, Labels: append(labels, d.Label), Cut: -1}, key+"+3")
-					run(c20Case{Input: in3, Labels: append(labels, d.Label), Cut: len(in) + len(d.Bytes)/2}, key+"+3|cut")
+					for cut := len(in); cut < len(in3); cut++ {
+						run(c20Case{Input: in3, Labels: append(labels, d.Label), Cut: cut}, key+"+3|cut")
+						run(c20Case{Input: in3, Labels: append(labels, d.Label), Cut: cut, Reset: true}, key+"+3|cut-reset")
+					}
+					for fw := 1; fw <= 3; fw++ {
+						run(c20Case{Input: in3, Labels: append(labels, d.Label), Cut: -1, FailWrite: fw}, key+"+3|write-fails")
+					}
+					run(c20Case{Input: in3, Labels: append(labels, d.Label), Cut: -1, Password: "Secret1"}, key+"+3|unauthorised")
 				}
 			}
 		}
@@ -169,7 +177,7 @@ func init() {
 	fw.Register(&fw.Prop{
 		ID:          "C20",
 		Level:       "fault_enumeration",
-		Rule:        "every request of the catalogue (every command: valid, ill-formed, surplus, unknown, handler error, QUIT) x {whole; a failing Write; unauthorised (requirepass set); authorised after AUTH; end of stream at every byte offset (quick: every 3rd for non-valid shapes) with EOF and with reset}; non-command top-level values and malformed frames, also unauthorised; all ordered pairs of representatives (whole, failing write, unauthorised, cuts at the boundary and at every 2nd offset of the last request; thorough: triples). A recording tracer built on the library's own span-stack context logs every start/finish; the log is replayed against the stack discipline (one open root at a time, child inside parent, nothing finished twice, nothing left open, a root per request).",
+		Rule:        "every request of the catalogue (every command: valid, ill-formed, surplus, unknown, handler error, QUIT) x {whole; a failing Write; unauthorised (requirepass set); authorised after AUTH; end of stream at every byte offset (quick: every 3rd for non-valid shapes) with EOF and with reset}; non-command top-level values and malformed frames, also unauthorised; all ordered pairs of representatives (whole, a write failing from reply 1 or 2, unauthorised, cuts at the boundary and at every 2nd offset of the last request; thorough: all triples with every cut offset of the last request under EOF and reset, a write failing from reply 1, 2 or 3, unauthorised). A recording tracer built on the library's own span-stack context logs every start/finish; the log is replayed against the stack discipline (one open root at a time, child inside parent, nothing finished twice, nothing left open, a root per request).",
 		Assumptions: []string{"the password authenticator is installed through the public API the way Server.Start does"},
 		Run:         c20Run,
 		Replay:      c20Replay,
